@@ -254,6 +254,26 @@ def checkOutputPubkey (q script control : Bytes) : Except Err Bool := do
     let Q := o.add P (o.mul t o.gen)
     pure (o.x Q == (ofBE q : Nat) && c0 &&& PARITY_MASK == (o.y Q % 2).toNat)
 
+/-! ### p2tr glue: `ScriptPubKey.p2tr`, `assert_p2tr` / `is_p2tr`, the witness program -/
+
+/-- `serialize(["OP_1", pub_key])` for a 32-byte key: version opcode, push marker, key -/
+def p2trScript (q : Bytes) : Bytes := P2TR_VERSION_OP :: P2TR_PUSH :: q
+
+/-- `assert_p2tr`: 34 octets (`bytes_from_octets(script_pub_key, 34)`), `OP_1`, a 32-byte push; `none` = accepted,
+    `some 0 / 1 / 2` = refused by the length / version / push-marker guard -/
+def assertP2tr (spk : Bytes) : Option Nat :=
+  if spk.length ≠ P2TR_LEN then some 0
+  else if spk.headD 0 ≠ P2TR_VERSION_OP then some 1
+  else if (spk.drop 1).headD 0 ≠ P2TR_PUSH then some 2
+  else none
+
+/-- `is_p2tr` -/
+def isP2tr (spk : Bytes) : Bool := (assertP2tr spk).isNone
+
+/-- `ScriptPubKey.p2tr(internal_key, script_path).script` -/
+def scriptPubKeyP2tr (sec : Option Bytes) (tree : Option Tree) : Except Err Bytes :=
+  (outputPubkey o H sec tree).map fun r => p2trScript r.1
+
 end group
 
 /-! ## the Python values that reach `tree_helper` (the `TaprootScriptTree` alias is not enforced at run time)
